@@ -140,6 +140,11 @@ impl Array8 {
         1 << self.lg_config_k
     }
 
+    /// The estimator state (HIP accumulator, kxq registers, out-of-order flag).
+    pub(super) fn estimator(&self) -> &HipEstimator {
+        &self.estimator
+    }
+
     /// Whether the HIP accumulator is invalid (the sketch is a merge result).
     pub(super) fn is_out_of_order(&self) -> bool {
         self.estimator.is_out_of_order()
